@@ -97,3 +97,51 @@ Proof.
   induction l1; destruct l2; simpl; intros H; try discriminate; [reflexivity|].
   apply andb_prop in H; destruct H as [H1 H2]. rewrite (proj1 (eqc_sound_Z s env _ _ H1)), (IHl1 _ H2). reflexivity.
 Qed.
+
+(* decision trees equal up to the operand order of commutative operators *)
+Fixpoint tree_eqc (a b : tree) : bool :=
+  match a, b with
+  | Leaf p o, Leaf p' o' => list_eqc p p' && list_eqc o o'
+  | Br c t f, Br c' t' f' => expr_eqc c c' && tree_eqc t t' && tree_eqc f f'
+  | _, _ => false
+  end.
+Lemma list_eqc_sound_RB env : forall l1 l2, list_eqc l1 l2 = true -> map (evalRB env) l1 = map (evalRB env) l2.
+Proof.
+  induction l1; destruct l2; simpl; intros H; try discriminate; [reflexivity|].
+  apply andb_prop in H; destruct H as [H1 H2]. rewrite (proj2 (eqc_sound_R env _ _ H1)), (IHl1 _ H2). reflexivity.
+Qed.
+Lemma forallb_map {A} (f : A -> bool) l : forallb f l = forallb (fun b => b) (map f l).
+Proof. induction l; simpl; [reflexivity|]. rewrite IHl. reflexivity. Qed.
+Lemma tree_eqc_sound_R env : forall a b, tree_eqc a b = true -> evalT env a = evalT env b.
+Proof.
+  induction a; destruct b; simpl; intros H; try discriminate; split_andb.
+  - rewrite (list_eqc_sound_R env _ _ H0). rewrite (forallb_map (evalRB env) pre), (forallb_map (evalRB env) pre0), (list_eqc_sound_RB env _ _ H). reflexivity.
+  - rewrite (proj2 (eqc_sound_R env _ _ H)). rewrite (IHa1 _ H1), (IHa2 _ H0). reflexivity.
+Qed.
+(* composite class: fma(a,b,c) compared with a*b+c (equal in real arithmetic, one rounding apart in IEEE) *)
+Fixpoint fma_expand (e : expr) : expr :=
+  match e with
+  | Fma k x y z => B Add k (B Mul k (fma_expand x) (fma_expand y)) (fma_expand z)
+  | U o k x => U o k (fma_expand x)
+  | B o k x y => B o k (fma_expand x) (fma_expand y)
+  | Cmp o k x y => Cmp o k (fma_expand x) (fma_expand y)
+  | Tst o k x => Tst o k (fma_expand x)
+  | LNot x => LNot (fma_expand x)
+  | LAnd x y => LAnd (fma_expand x) (fma_expand y)
+  | LOr x y => LOr (fma_expand x) (fma_expand y)
+  | Cv d s x => Cv d s (fma_expand x)
+  | _ => e
+  end.
+Fixpoint fma_expand_tree (t : tree) : tree :=
+  match t with
+  | Leaf p o => Leaf (map fma_expand p) (map fma_expand o)
+  | Br c a b => Br (fma_expand c) (fma_expand_tree a) (fma_expand_tree b)
+  | Abort w => Abort w
+  end.
+Lemma fma_expand_sound env : forall e, evalR env (fma_expand e) = evalR env e /\ evalRB env (fma_expand e) = evalRB env e.
+Proof.
+  induction e; simpl; try (split; reflexivity);
+  repeat match goal with H : _ /\ _ |- _ => destruct H end;
+  repeat match goal with H : evalR _ (fma_expand _) = _ |- _ => rewrite H; clear H | H : evalRB _ (fma_expand _) = _ |- _ => rewrite H; clear H end;
+  split; reflexivity.
+Qed.
